@@ -275,4 +275,4 @@ var loadSeeds = []string{
 }
 
 // RepoSnap is the repository tree the corpora are read from.
-const RepoSnap = "/repo"
+const RepoSnap = "/var/tmp/repo-snap13"
